@@ -246,6 +246,32 @@ def forest_check(prop, tier, seed):
             for k in range(150 if quick else 3000):
                 f, roots = gen.random_forest(rnd, rnd.choice([5, 8, 12, 16]), shape=rnd.choice(["chain", "mixed", "chain"]), nsrich=True, trees=1)
                 gchosen.append(f.state())
+        if extra != "ws":
+            # the same expanded name twice: once where a prefix for it is in scope, once where none is (whoever remembers
+            # "this name has been dealt with" must remember WHERE) - as element names and as attribute names, in both orders
+            for ns_decl_first in (True, False):
+                for as_attr in (False, True):
+                    for pxname in ("p", ""):
+                        if as_attr and pxname == "":
+                            continue
+                        ff = gen.Forest(True)
+                        r = ff.add(gen.node("elem", ln="r"))
+                        def housed():
+                            x = ff.add(gen.node("elem", ln="x"), r)
+                            ff.add(gen.node("nsn", ln=pxname, u="u1"), x)
+                            if as_attr:
+                                e = ff.add(gen.node("elem", ln="e"), x)
+                                ff.add(gen.node("attr", ns="u1", ln="a", t=gen.cps("v")), e)
+                            else:
+                                ff.add(gen.node("elem", ns="u1", ln="a"), x)
+                        def bare():
+                            if as_attr:
+                                e = ff.add(gen.node("elem", ln="e"), r)
+                                ff.add(gen.node("attr", ns="u1", ln="a", t=gen.cps("v")), e)
+                            else:
+                                ff.add(gen.node("elem", ns="u1", ln="a"), r)
+                        (housed(), bare()) if ns_decl_first else (bare(), housed())
+                        gchosen.append(ff.state())
         sp2 = os.path.join(d, "gstates.ndjson")
         with open(sp2, "w") as f:
             for st in gchosen:
